@@ -76,7 +76,30 @@ def spd_sparse_pattern(rng, n):
     return A
 
 
-SPD_FAMILIES = [("sparse_pattern", spd_sparse_pattern), ("random", spd_random), ("graded", spd_graded), ("hilbert", spd_hilbert), ("integer", spd_integer),
+def spd_weak_coupling(rng, n):
+    """diagonal entries of order one; some couplings of order one, others non-zero but 1e-9..1e-12 (absorbed without trace when
+    they are squared and subtracted from a diagonal entry, yet they propagate to first order into later rows)"""
+    A = [[0.0] * n for _ in range(n)]
+    for i in range(n):
+        for j in range(i):
+            c = rng.random()
+            v = rng.choice([-1, 1]) * (rng.uniform(0.2, 0.5) if c < 0.45 else (10.0 ** -rng.uniform(8.5, 12) if c < 0.9 else 0.0))
+            A[i][j] = A[j][i] = v
+    for i in range(n):
+        A[i][i] = rng.choice([1.0, 1.0, 2.0, rng.uniform(0.8, 2.5)]) + sum(abs(t) for k, t in enumerate(A[i]) if k != i)
+    return A
+
+
+def spd_scaled_extreme(rng, n):
+    """a well-conditioned matrix times 10^(+-k), k up to 140 (as far as the determinant stays an f64)"""
+    A = spd_sparse_pattern(rng, n) if rng.random() < 0.5 else spd_random(rng, n, ridge=1.0)
+    kmax = min(140, 280 // n - 3)            # the determinant ~ 10^(k n) has to stay an ordinary f64
+    k = rng.randint(min(61, kmax // 2), kmax) * rng.choice([-1, 1])
+    sc = 10.0 ** k if rng.random() < 0.5 else 2.0 ** int(k * 3.32)
+    return symmetrize([[A[i][j] * sc for j in range(n)] for i in range(n)])
+
+
+SPD_FAMILIES = [("weak_coupling", spd_weak_coupling), ("scaled_extreme", spd_scaled_extreme), ("sparse_pattern", spd_sparse_pattern), ("random", spd_random), ("graded", spd_graded), ("hilbert", spd_hilbert), ("integer", spd_integer),
                 ("graph", spd_graph_like), ("near_degenerate", spd_near_degenerate)]
 
 
@@ -164,6 +187,25 @@ def relabel(rng, edges, extra_vertices=0):
             if lab not in labels:
                 labels[rng.randrange(nv)] = lab
     return [(labels[a], labels[b]) for a, b in edges], labels[:nv], labels[nv:]
+
+
+def collision_labelled(rng):
+    """small graphs whose vertex labels differ by exactly 8, 16, 32, 64, 128 (every run, every step): a vertex set kept in a bit mask
+    with a wrong width or mask aliases them"""
+    out = []
+    for step in (8, 16, 32, 64, 128):
+        for name in ("triangle", "box", "double_triangle"):
+            edges = list(CATALOGUE[name])
+            nv = max(max(e) for e in edges) + 1
+            base = rng.randrange(0, min(step, 256 - step * (1 if step == 128 else 1) - 1))
+            labels = [base, base + step]
+            while len(labels) < nv:
+                cand = rng.randrange(256)
+                if cand not in labels:
+                    labels.append(cand)
+            rng.shuffle(labels)
+            out.append((name + f"+labels_differ_by_{step}", [(labels[a], labels[b]) for a, b in edges]))
+    return out
 
 
 def weight_choice(rng, style):
